@@ -29,19 +29,18 @@ class SyncFlow(flow.Flow):
         return isinstance(e, ast.Call) and isinstance(e.func, ast.Attribute) and norm(e.func.value) == 'self' \
             and e.func.attr == self.user_attr
 
-    def st_Assign(self, func, st, p):
-        if self.is_user_call(st.value) and len(st.targets) == 1 and isinstance(st.targets[0], ast.Name):
-            t = st.targets[0].id
-            q = self.ev(p, 'call', 'USER', 'user', func, st.value)
+    def call(self, func, call, p):
+        if self.is_user_call(call):
+            q = self.ev(p, 'call', 'USER', 'user', func, call)
             out = []
             for typ in ('Exception', 'KeyboardInterrupt'):
-                r = self.ev(q, 'raise', typ, 'implicit', func, st.value)
+                r = self.ev(q, 'raise', typ, 'implicit', func, call)
                 out.append(r.out(('raise', typ)))
             for v in ('None', 'NotNone'):
-                r = self.ev(q, 'lstore', t, 'user:' + v, func, st)
-                out.append(r.with_fact('L:' + t, v))
+                r = self.ev(q, 'lstore', '$user', 'user:' + v, func, call)
+                out.append(r.with_fact(f'$val:{id(call)}', v))
             return out
-        return super().st_Assign(func, st, p)
+        return super().call(func, call, p)
 
 
 def run(ctx, prog):
@@ -79,14 +78,16 @@ def run(ctx, prog):
         raise AnalysisError('loop target shape not understood')
     ctx.check(norm(iterable) == 'self.input_ths', 'C20-D1', f'{run_f.key}::loop iterable',
               f'the loop iterates `{norm(iterable)}`, not the whole input trace set in order', 'the loop iterates self.input_ths', run_f.where(loop))
-    # result variable
-    res_vars = [n.targets[0].id for n in ast.walk(loop) if isinstance(n, ast.Assign) and isinstance(n.value, ast.Call)
-                and isinstance(n.value.func, ast.Attribute) and n.value.func.attr == user_attr and isinstance(n.targets[0], ast.Name)]
-    if len(res_vars) != 1:
-        raise AnalysisError('user function call is not a single `var = self.function(...)` assignment')
-    res = res_vars[0]
-    ucall = [n.value for n in ast.walk(loop) if isinstance(n, ast.Assign) and isinstance(n.value, ast.Call)
-             and isinstance(n.value.func, ast.Attribute) and n.value.func.attr == user_attr][0]
+    # result variable: the one handed to the writer as `points`
+    ucalls = [n for n in ast.walk(loop) if isinstance(n, ast.Call) and isinstance(n.func, ast.Attribute) and n.func.attr == user_attr
+              and norm(n.func.value) == 'self']
+    if len(ucalls) != 1:
+        raise AnalysisError(f'{len(ucalls)} user function calls in the loop')
+    ucall = ucalls[0]
+    wr = [n for n in ast.walk(loop) if isinstance(n, ast.Call) and isinstance(n.func, ast.Attribute) and 'write' in n.func.attr]
+    if len(wr) != 1 or not isinstance(kw(wr[0], 'points'), ast.Name):
+        raise AnalysisError('write call with a named `points` argument not found in the loop')
+    res = kw(wr[0], 'points').id
     passed = kw(ucall, 'trace_object') or (ucall.args[0] if ucall.args else None)
     ctx.check(isinstance(passed, ast.Name) and passed.id == trace_var, 'C20-D2', f'{run_f.key}::{norm(ucall)[:100]}',
               f'the user function receives `{norm(passed) if passed is not None else None}`, not the loop trace object `{trace_var}`',
@@ -97,11 +98,11 @@ def run(ctx, prog):
         if k == 'store':
             return True
         if k == 'lstore':
-            return name == res
+            return name in (res, '$user')
         if k == 'call':
             return name == 'USER' or 'write' in name or 'error_occur' in name
         return k == 'raise'
-    fl = SyncFlow(prog, ci, user_attr, keep=keep, inline=lambda callee, call, caller: False)
+    fl = SyncFlow(prog, ci, user_attr, keep=keep, inline=lambda callee, call, caller: callee.cls is not None and callee.mod.name == 'scared.synchronization')
     fl.stack.append(run_f)
     start = flow.Path(facts=frozenset({('L:' + res, 'NotNone')}))     # stale value from an earlier iteration
     paths = flow.dedupe(fl.block(run_f, loop.body, [start]))
@@ -110,7 +111,7 @@ def run(ctx, prog):
     classes = {'data': [], 'none': [], 'exc': [], 'kbd': []}
     for p in paths:
         evs = p.events
-        user_ret = [e for e in evs if e[0] == 'lstore' and e[2].startswith('user:')]
+        user_ret = [e for e in evs if e[0] == 'lstore' and e[1] == '$user']
         if any(e[0] == 'raise' and e[1] == 'KeyboardInterrupt' and e[2] == 'implicit' for e in evs):
             classes['kbd'].append(p)
         elif any(e[0] == 'raise' and e[1] == 'Exception' and e[2] == 'implicit' for e in evs):
